@@ -26,9 +26,10 @@ Fixpoint lookupS (k : string) (l : list (string * string)) : option string :=
 Record hrow := mkHrow { h_table : string; h_id : Z; h_nick : option string; h_nid : Z }.
 
 Record rh := mkRh {
-  tc : list (string * Z);        (* table_counters (also holds nickname -> last nickname_id) *)
+  tc : list (string * Z);        (* table_counters: id of the row saved last, per table      *)
   nc : list (string * Z);        (* nickname_counters                                        *)
   lc : list (string * Z);        (* local_counters = snapshot of table_counters at reset     *)
+  lnc : list (string * Z);       (* local_nickname_counters = snapshot of nickname_counters  *)
   n2t : list (string * string);  (* nickname_to_tablename (nick <> table entries only)       *)
   hrows : list hrow              (* the history tables, in insertion order                   *)
 }.
@@ -38,7 +39,7 @@ Definition get0 (k : string) (l : list (string * Z)) : Z :=
 
 (* RowHistory(table_counters, tables, tablename_for_nickname) *)
 Definition rh_init (counters : list (string * Z)) (names : list (string * string)) : rh :=
-  mkRh counters [] counters
+  mkRh counters [] counters []
        (filter (fun '(n, t) => negb (String.eqb n t)) names) [].
 
 (* save_row(tablename, nickname, row) with row["id"] = id *)
@@ -47,12 +48,12 @@ Definition save_row (h : rh) (table : string) (nick : option string) (id : Z) : 
   match nick with
   | Some n =>
     let nid := get0 n (nc h) + 1 in
-    mkRh (assignZ n nid tc1) (assignZ n nid (nc h)) (lc h) (n2t h)
+    mkRh tc1 (assignZ n nid (nc h)) (lc h) (lnc h) (n2t h)
          (hrows h ++ [mkHrow table id (Some n) nid])
-  | None => mkRh tc1 (nc h) (lc h) (n2t h) (hrows h ++ [mkHrow table id None 0])
+  | None => mkRh tc1 (nc h) (lc h) (lnc h) (n2t h) (hrows h ++ [mkHrow table id None 0])
   end.
 
-Definition reset_locals (h : rh) : rh := mkRh (tc h) (nc h) (tc h) (n2t h) (hrows h).
+Definition reset_locals (h : rh) : rh := mkRh (tc h) (nc h) (tc h) (nc h) (n2t h) (hrows h).
 
 (* find_row_id_for_nickname_id: first row with that nickname and nickname_id; assert found *)
 Fixpoint find_nick_row (rows : list hrow) (table nick : string) (nid : Z) : option Z :=
@@ -76,8 +77,10 @@ Definition ref_range (h : rh) (name : string) : result (option string * string *
   | Some m =>
     if m =? 0 then Err (DGE "no-such-table")
     else
-      let key := match nick with Some n => n | None => table end in
-      let min0 := get0 key (lc h) + 1 in
+      let min0 := match nick with
+                  | Some n => get0 n (lnc h) + 1
+                  | None => get0 table (lc h) + 1
+                  end in
       let min_id := if m <? min0 then 1 else min0 in
       Ok (nick, table, min_id, m)
   end.
